@@ -9,7 +9,19 @@ import (
 )
 
 func zzPw(name string) []byte {
-	return vrt.Bytes(name, vrt.Range(name+"_len", 0, vrt.Param("maxpw", 2)))
+	b := vrt.Bytes(name, vrt.Range(name+"_len", 0, vrt.Param("maxpw", 2)))
+	if vrt.Param("ascii", 0) == 1 {
+		for _, x := range b {
+			vrt.Assume(x < 0x80)
+		}
+	}
+	return b
+}
+
+// ZZ_C37_ascii_passwords: the round-trip / wrong-password property again with passwords over
+// 7-bit ASCII (including every ASCII white-space and control character).
+func ZZ_C37_ascii_passwords() {
+	ZZ_C37_roundtrip_and_wrong_password()
 }
 
 // ZZ_C37_roundtrip_and_wrong_password: decrypting with the same password gives the message
